@@ -13,7 +13,8 @@
 (*   Fair      Lmm!MaxMinFairI (maxmin kinds) / Lmm!BmfFairI (bmf) (C16)                                             *)
 (*   Exact     maxmin kinds: equality with the exact allocation printed by the generator, where it is unique (C16)   *)
 (*   SelFull / SelFresh   selective = full, selective = fresh on every consuming variable (C17)                      *)
-(* A failed predicate prints <<"BAD", case id, operation index, kind, predicate>>; nothing else is a verdict.         *)
+(* A failed predicate prints <<"BAD", case id, operation index, kind, predicate, cause tags>>; nothing else is a     *)
+(* verdict.  The cause tags are those of the abstract system that follows the implementation (Lmm!SolveFlags...).    *)
 EXTENDS Lmm, Json, IOUtils
 
 Cases == JsonDeserialize(IOEnv.LMM_CASES)
@@ -49,27 +50,28 @@ After(k, o) ==
 ConcOkI(t, r) == /\ ConcurrencyOk(t)
                  /\ \A c \in Cons(t) : r.slack[c] = (IF t.clim[c] < 0 THEN -1 ELSE t.clim[c] - Conc(t, c))
 
-Bad(k, what) == PrintT(<<"BAD", Case.id, i, k, what>>)
-Chk(cond, k, what) == IF cond THEN TRUE ELSE Bad(k, what)     \* (a disjunction would be explored on both sides)
+\* t: the abstract system the predicate was evaluated on; its cause tags are printed with the verdict
+Bad(k, what, t) == PrintT(<<"BAD", Case.id, i, k, what, t.flags \cup NowFlags(t)>>)
+Chk(cond, k, what, t) == IF cond THEN TRUE ELSE Bad(k, what, t)     \* (a disjunction would be explored on both sides)
 
 MaxMinKind(k) == k \in {"mmsel", "mmfull"}
 SolveChecks(k, t, o) ==
   LET val == Rec(k).val IN
-  /\ Chk(Len(val) = Len(t.alive), k, "Shape")
+  /\ Chk(Len(val) = Len(t.alive), k, "Shape", t)
   /\ Len(val) = Len(t.alive) =>
-       /\ Chk(FeasibleI(t, val, Scale, Eps), k, "Feasible")
-       /\ MaxMinKind(k) => Chk(MaxMinFairI(t, val, Scale, Eps), k, "MaxMinFair")
-       /\ k = "bmf" => Chk(BmfFairI(t, val, Scale, Eps), k, "BmfFair")
-       /\ (MaxMinKind(k) /\ o.uniq /\ t.pen = o.gpen) => Chk(EqualsExactI(t, val, o.exp, SK, Scale, Eps), k, "Exact")
+       /\ Chk(FeasibleI(t, val, Scale, Eps), k, "Feasible", t)
+       /\ MaxMinKind(k) => Chk(MaxMinFairI(t, val, Scale, Eps), k, "MaxMinFair", t)
+       /\ k = "bmf" => Chk(BmfFairI(t, val, Scale, Eps), k, "BmfFair", t)
+       /\ (MaxMinKind(k) /\ o.uniq /\ t.pen = o.gpen) => Chk(EqualsExactI(t, val, o.exp, SK, Scale, Eps), k, "Exact", t)
 
 StepKind(k, o) ==
   IF Rec(k).ok = 0 THEN st[k]                        \* the run of this kind stopped (abort): nothing more to check
   ELSE LET a == After(k, OpOf(o))
            t == a.s IN
-       IF /\ Chk(a.ok, k, "TransOk")
+       IF /\ Chk(a.ok, k, "TransOk", t)
           /\ Shape(t, Rec(k)) =>
-               /\ Chk(ConcOkI(t, Rec(k)), k, "ConcOk")
-               /\ Chk(NoStarvation(t), k, "NoStarv")
+               /\ Chk(ConcOkI(t, Rec(k)), k, "ConcOk", t)
+               /\ Chk(NoStarvation(t), k, "NoStarv", t)
                /\ o.op = "solve" => SolveChecks(k, t, o)
        THEN t ELSE t
 
@@ -79,10 +81,10 @@ CrossChecks(o, t) ==
       b == Case.runs["mmfull"][i]
       f == Case.runs["fresh"][i] IN
   (o.op = "solve" /\ a.ok = 1 /\ Len(a.val) = Len(t.alive)) =>
-     /\ (b.ok = 1 /\ Len(b.val) = Len(a.val)) => Chk(SameI(t, a.val, b.val, Scale, Eps), "mmsel", "SelFull")
-     /\ (f.ok = 1 /\ Len(f.val) = Len(a.val)) => Chk(SameI(t, a.val, f.val, Scale, Eps), "mmsel", "SelFresh")
+     /\ (b.ok = 1 /\ Len(b.val) = Len(a.val)) => Chk(SameI(t, a.val, b.val, Scale, Eps), "mmsel", "SelFull", t)
+     /\ (f.ok = 1 /\ Len(f.val) = Len(a.val)) => Chk(SameI(t, a.val, f.val, Scale, Eps), "mmsel", "SelFresh", t)
      /\ (f.ok = 1 /\ Len(f.val) = Len(a.val) /\ o.uniq /\ t.pen = o.gpen) =>
-             Chk(EqualsExactI(t, f.val, o.exp, SK, Scale, Eps), "fresh", "Exact")
+             Chk(EqualsExactI(t, f.val, o.exp, SK, Scale, Eps), "fresh", "Exact", t)
 
 Step == /\ i <= Len(Case.ops)
         /\ LET o == Case.ops[i]
